@@ -935,7 +935,7 @@ def c20(run):
                 run.fail(case, '`rrss exec` of a succeeding program reports an error')
             # the same program with a standard output that cannot be written
             lib_w = common.impl(['run %s x%s 0 - 20000' % (hx(src), b'one\ntwo\n'.hex())])[0]
-            if lib_w.startswith('rterr IOError'):
+            if lib_w.startswith('rterr '):
                 run.case(('exec-full', src), True, sub='exec-stdout-full')
                 with open('/dev/full', 'wb') as full:
                     pf = subprocess.run([binp, 'exec', path], input=b'one\ntwo\n', stdout=full, stderr=subprocess.PIPE, env=env, timeout=60)
